@@ -54,3 +54,23 @@ align = FunctionSpec(
 )
 
 SPECS = [getPrimaryCorrelations, getSecondaryCorrelation, getAlignmentRow, dispatch, getBestAlignment, align]
+
+
+# ------------------------------------------------------------------ _WorkflowCoordinator.execute (one work item per query, ordered map, filter)
+def _exec_ensures(C, res):
+    k = z3.Int('exk')
+    Q = C.queryMaps
+    cl = [('at_most_one_row_per_query', res.len <= Q.len),
+          ('every_returned_row_has_at_least_one_pair', forall(k, z3.Implies(rng(0, k, res.len), res[k].alignedPairs.len > 0), [res.raw(k).t]))]
+    return cl
+
+
+execute = FunctionSpec(
+    file=F, qualname='_WorkflowCoordinator.execute', params=dict(self=WC, referenceMaps=LIST(OMAP), queryMaps=LIST(OMAP)), returns=LIST(ROW),
+    requires=lambda C: [('peak_count_nonnegative', C.self.peaksSelector.count >= 0),
+                        ('cpus_option_absent_or_positive', z3.Or(C.self.args.numberOfCpus.none, C.self.args.numberOfCpus.val >= 1))],
+    ensures=_exec_ensures, serves=('C07', 'C05', 'C09', 'C10'),
+    note="one work item (referenceMaps, q) per query, mapped in order through __align by p_imap (assumed ordered for every worker count; its precondition - "
+         "worker count None or >= 1 - is an obligation here), rows that are None or have no pair are dropped: at most one row per query, each with a pair")
+
+SPECS += [execute]
